@@ -6,7 +6,8 @@
     and two signals share payload bits only if both are multiplexed with different selectors. *)
 From Coq Require Import ZArith List Bool.
 From CanVerif Require Import Can.Data Can.DataSpec Can.DataProofs Descriptor.Types
-  Gen.Message Gen.MessageProofs Gen.History Gen.Layout Gen.LayoutProofs Gen.RoundTrip Gen.HistoryProofs.
+  Gen.Message Gen.MessageProofs Gen.History Gen.Layout Gen.LayoutProofs Gen.RoundTrip Gen.HistoryProofs
+  Gen.Wiring Gen.WiringProofs.
 Import ListNotations.
 Open Scope Z_scope.
 
@@ -125,3 +126,53 @@ Proof.
   - repeat constructor; vm_compute; intuition congruence.
   - apply (fopb_sound compatb compat); [exact compatb_sound|vm_compute; reflexivity].
 Qed.
+
+(** WIRING TIE (Gen/Wiring.v). [w] is the first-order reading of the emitted Go text of one message type (struct
+    declaration, md literal, and every statement of Frame() and UnmarshalFrame(), by harness/genwire); each wiring
+    statement means the call of the library function it names ([wiring_frame], [wiring_unmarshal]: sequential
+    execution of the statements, guards read the CURRENT field values, a rejection returns the state as it is at
+    that point). If the decidable checker accepts the wiring - evaluated on every generated message of every run -
+    the emitted Frame() is the interpreter's [frame_of] for ALL states ... *)
+Theorem C03_wiring_frame : forall m w st,
+  frame_wiring_ok m w = true -> length st = length (msg_signals m) ->
+  wiring_frame m w st = Some (frame_of m st).
+Proof. exact wiring_frame_correct. Qed.
+Print Assumptions C03_wiring_frame.
+(** ... and the emitted UnmarshalFrame() is the interpreter's [unmarshal] for ALL frames and states: the same
+    rejection with the state untouched, or the same new state *)
+Theorem C03_wiring_unmarshal : forall m w f st,
+  unmarshal_wiring_ok m w = true -> length st = length (msg_signals m) ->
+  wiring_unmarshal m w f st =
+  Some (match unmarshal m f st with inl r => inl (r, st) | inr st' => inr st' end).
+Proof. exact wiring_unmarshal_correct. Qed.
+Print Assumptions C03_wiring_unmarshal.
+
+(** non-vacuity of the wiring tie: the wiring of the example message as harness/genwire prints it is accepted *)
+Definition C03_example_wiring : wiring :=
+  let u8 := [117; 105; 110; 116; 56] in let u16 := [117; 105; 110; 116; 49; 54] in let i16 := [105; 110; 116; 49; 54] in
+  let u64 := [117; 105; 110; 116; 54; 52] in let i64 := [105; 110; 116; 54; 52] in
+  let bool := [98; 111; 111; 108] in let f32 := [102; 108; 111; 97; 116; 51; 50] in let f64 := [102; 108; 111; 97; 116; 54; 52] in
+  let fld n := xxx_prefix ++ [n] in
+  let st k d c g := {| n_kind := k; n_desc := [d]; n_field := fld d; n_conv := c; n_guard := g |} in
+  {| w_fields := [(fld 1, u8); (fld 2, bool); (fld 3, i16); (fld 4, u16); (fld 5, f32)];
+     w_types := []; w_msg_index := 3;
+     w_descs := [([1], (3, 0)); ([2], (3, 1)); ([3], (3, 2)); ([4], (3, 3)); ([5], (3, 4))];
+     w_init := (HId, HExt, HLen);
+     w_frame := [st StUnsigned 1 u64 None; st StBool 2 bool None; st StFloat 5 f64 None;
+                 st StSigned 3 i64 (Some (fld 1, 1)); st StUnsigned 4 u64 (Some (fld 1, 2))];
+     w_unmarshal := [NReject (RcNe HId HId); NReject (RcNe HLen HLen); NReject RcRemote; NReject (RcNe HExt HExt);
+                     NAssign (st StUnsigned 1 u8 None); NAssign (st StBool 2 bool None); NAssign (st StFloat 5 f32 None);
+                     NAssign (st StSigned 3 i16 (Some (fld 1, 1))); NAssign (st StUnsigned 4 u16 (Some (fld 1, 2)))];
+     w_reset := []; w_copy := true; w_setters := []; w_getters := [] |}.
+Example C03_wiring_nonvacuous :
+  wiring_ok_c03 3 C03_example_message C03_example_wiring = true /\
+  wiring_frame C03_example_message C03_example_wiring [1; 1; -5; 0xBEEF; 0x40490FDB] =
+    Some (frame_of C03_example_message [1; 1; -5; 0xBEEF; 0x40490FDB]) /\
+  (* moving one assignment in front of the remote-frame rejection, or guarding the last group with another constant, is refused *)
+  unmarshal_wiring_ok C03_example_message
+    {| w_fields := w_fields C03_example_wiring; w_types := []; w_msg_index := 3; w_descs := w_descs C03_example_wiring;
+       w_init := w_init C03_example_wiring; w_frame := w_frame C03_example_wiring;
+       w_unmarshal := match w_unmarshal C03_example_wiring with
+                      | a :: b :: c :: d :: e :: tl => a :: b :: e :: c :: d :: tl | l => l end;
+       w_reset := []; w_copy := true; w_setters := []; w_getters := [] |} = false.
+Proof. vm_compute. repeat split; reflexivity. Qed.
